@@ -254,7 +254,17 @@ def golden_engine(pid, tier, seed, exe, workdir, V):
         if bad or len(a) != len(b):
             res['oracle_failures'].append({'line': '! C18 camelToSnake differs from the model: impl %r model %r' % (bad[:1] or len(a), len(b)),
                                            'replay': [str(bad[:3])], 'hist': 'snake'})
-    res['summary'] = 'golden directories: %d, ops %d; snake strings compared' % (c['histories'], c['ops'])
+    # a directory written by the pinned release for a struct with fields of named basic types
+    nf = os.path.join(workdir, 'named.txt')
+    _sh([exe, '-named-check', os.path.join(V, 'golden-named'), '-out', nf], timeout=600)
+    ntxt = open(nf).read() if os.path.exists(nf) else ''
+    for l in ntxt.splitlines():
+        if l.startswith('! C18'):
+            res['oracle_failures'].append({'line': l, 'replay': [l], 'hist': 'golden-named'})
+    if 'named done' not in ntxt:
+        res['oracle_failures'].append({'line': '! C18 golden/named could not be checked: ' + ntxt[-300:], 'replay': [ntxt[-600:]], 'hist': 'golden-named'})
+    res['evaluations'] += 1
+    res['summary'] = 'golden directories: %d (+ named types), ops %d; snake strings compared' % (c['histories'], c['ops'])
     return res
 
 
